@@ -3,6 +3,7 @@ CONSTANTS
   Handles = {1, 2, 3}
   MaxSteps = 7
   Emit = TRUE
+  Counted = TRUE
 VIEW View
 INVARIANTS HandleSafe ClosedOnce NoLeak RefsExact
 CHECK_DEADLOCK FALSE
